@@ -285,6 +285,20 @@ func c09Sections() []c09Section {
 	for _, kw := range []string{"a:b", "m:ext", "a-1:b.2", "_a:_b", "A:B"} {
 		out = append(out, c09Section{head + "  leaf l { type string; " + kw + " \"x\"; }\n}\n", "accept", "keyword prefixed-extension " + kw})
 	}
+	// an argument is checked for the statement it belongs to, whatever was parsed before it: a keyword that
+	// is the beginning of another keyword, with an argument that supplies the rest of that keyword
+	for _, o := range []struct{ first, second, what string }{
+		{"leaf-list foo { type string; }", "leaf \"-listfoo\" { type string; }", "leaf after-leaf-list"},
+		{"leaf-list foo { type string; }", "leaf -listfoo { type string; }", "leaf after-leaf-list-unquoted"},
+		{"import other { prefix o; revision-date 2015-01-01; }", "revision \"-date2015-01-01\";", "revision after-revision-date"},
+		{"typedef t1 { type string; }", "leaf l { type \"deft1\" { length \"x\"; } }", "type after-typedef"},
+		{"container c1 { leaf-list 'a.b' { type string; } }", "container c2 { leaf '-lista.b' { type string; } }", "leaf after-leaf-list-in-another-container"},
+	} {
+		out = append(out, c09Section{"module m {\n  namespace urn:m;\n  prefix m;\n  " + o.first + "\n  " + o.second + "\n}\n", "reject", "keyword prefix-confusion " + o.what})
+		if !strings.HasPrefix(o.first, "import") {
+			out = append(out, c09Section{"module m {\n  namespace urn:m;\n  prefix m;\n  " + o.second + "\n  " + o.first + "\n}\n", "reject", "keyword prefix-confusion-reversed " + o.what})
+		}
+	}
 	return out
 }
 
